@@ -152,7 +152,7 @@ Example Decode_denote_example :
   end.
 Proof.
   split; [exact ok_hdr_wf|]. split; [reflexivity|].
-  split; [vm_compute; reflexivity|]. split; [vm_compute; reflexivity|]. split; [vm_compute; reflexivity|].
+  split; [vm_compute; reflexivity|]. split; [vm_compute; reflexivity|].
   split.
   { destruct (denote ok_stream) as [ss|] eqn:E; [|vm_compute in E; discriminate].
     destruct (start_file ok_hdr g_init (hd dummy_msg (ss_msgs ss))) as [[f2 g1]|] eqn:E2.
